@@ -231,7 +231,40 @@ func ruleAdjacentPairs(c *Ctx) {
 			if cond.Op == token.LEQ {
 				got = polyAdd(got, polyConst(-1), 1) // i <= X  <=>  i < X+1  => lhs - rhs - 1 < 0
 			}
+			// step: i++ / i += 1 and no other write to i in the body
+			unit := false
+			switch p := fs.Post.(type) {
+			case *ast.IncDecStmt:
+				if id, ok := p.X.(*ast.Ident); ok && info.Uses[id] == iobj && p.Tok == token.INC {
+					unit = true
+				}
+			case *ast.AssignStmt:
+				if len(p.Lhs) == 1 && len(p.Rhs) == 1 && p.Tok == token.ADD_ASSIGN {
+					if id, ok := p.Lhs[0].(*ast.Ident); ok && info.Uses[id] == iobj {
+						if v, ok := constantInt(info.Types[p.Rhs[0]]); ok && v == 1 {
+							unit = true
+						}
+					}
+				}
+			}
+			ast.Inspect(fs.Body, func(n ast.Node) bool {
+				switch x := n.(type) {
+				case *ast.AssignStmt:
+					for _, l := range x.Lhs {
+						if id, ok := l.(*ast.Ident); ok && info.Uses[id] == iobj {
+							unit = false
+						}
+					}
+				case *ast.IncDecStmt:
+					if id, ok := x.X.(*ast.Ident); ok && info.Uses[id] == iobj {
+						unit = false
+					}
+				}
+				return true
+			})
 			switch {
+			case !unit:
+				c.bad(key, fs.Pos(), "neighbour scan over %s does not advance by exactly one per iteration: some adjacent pairs are skipped", slice)
 			case start != -a:
 				c.bad(key, fs.Pos(), "neighbour scan over %s compares [i%+d] with [i%+d] but starts at i = %d: the pair (%d,%d) is never compared", slice, a, b, start, 0, 1)
 			case !polyEq(got, want):
